@@ -13,7 +13,7 @@ func init() {
 		Explanation: "Decides the hand-off and batching mechanics between the FSM proposer and the gossip sender: (R1) the only sender on the snapshots channel is the loop of RaftNode.AddBulk, which sends once per element of the FSM response, unconditionally, a pointer to a per-iteration copy (no aliasing between elements); " +
 			"(R2) batcher conservation and bound: the flush-if-full test on len(batch) vs BatchSize precedes the append of the received snapshot and its full edge replaces the batch before the append; every publish carries the encoding of the current batch and is followed by a fresh batch before the next receive; the timer publishes only a non-empty batch; the received snapshot is appended on every path; " +
 			"(R3) the signature is computed over the whole snapshot value and paired with that same snapshot, through no state shared between batchers; (R4) the batch is local to its goroutine; (R5) Sign uses the private key and the message, Verify the public key, message and signature in that order.",
-		Added:       "Also (R2) the message bus hands every published message over with a blocking send; (R3) the snapshot type has no formatter method; (R5) the signer constructor succeeds only after its test verification. Third round: (R5) Verify's result depends on the message it was given.",
+		Added:       "Also (R2) the message bus hands every published message over with a blocking send; (R3) the snapshot type has no formatter method; (R5) the signer constructor succeeds only after its test verification. Third round: (R5) Verify's result depends on the message it was given. Fifth round: encoded batches never alias a recycled buffer; delivery goroutines get copies of lock-protected subscriber lists.",
 		Assumptions: []string{"ed25519", "Go channels deliver each value once"},
 		Declined:    "no loss/duplication for all arrival timings as a statement over schedules; that any modified field or signature byte stops verification (cryptography).",
 	}, runC17)
